@@ -21,6 +21,10 @@ func main() {
 	rng := r.Rand()
 	cfgs := pgen.Cfgs()
 	g := &pgen.G{R: rng, Cfg: pgen.DefaultCfg}
+	pgen.Directed(g, func(c pgen.Cfg, frame, spare []byte, class string) {
+		r.Do("p", append(c.Toks(), lib.Hex(frame), lib.Hex(spare))...)
+		r.Stat("class."+class, 1)
+	})
 	pgen.Generate(g, r.Thorough(), func(frame, spare []byte, class string) {
 		c := cfgs[0]
 		if rng.Chance(25) {
